@@ -219,21 +219,19 @@ func (a *archetype) FreeTable(table *table) {
 	a.freeTables = append(a.freeTables, table.id)
 	table.isFree = true
 
-	// If there is only one relation, the resp. relationTables
-	// entry is removed anyway.
-	if a.numRelations <= 1 {
-		return
-	}
-
-	// TODO: can/should we be more selective here?
-	// For a potential solution, see https://github.com/mlange-42/ark/pull/264
-	for _, m := range a.relationTables {
-		for _, v := range m {
-			_ = v.Remove(table.id)
+	// Remove the table from the relation indices of its own targets.
+	// Entries of other targets can't contain this table.
+	for i := range table.columns {
+		column := &table.columns[i]
+		if !column.isRelation {
+			continue
 		}
-	}
-	for _, v := range a.targetTables {
-		_ = v.Remove(table.id)
+		if tables, ok := a.relationTables[i][column.target.id]; ok {
+			_ = tables.Remove(table.id)
+		}
+		if tables, ok := a.targetTables[column.target.id]; ok {
+			_ = tables.Remove(table.id)
+		}
 	}
 }
 
